@@ -522,6 +522,20 @@ func applyCfgFault(b []byte, ft fault) ([]byte, error) {
 		n := append([]interface{}{}, cur...)
 		n[0] = blank(ft.To)
 		set(n)
+	case "ParamIndexRange":
+		p, ok := c["Parameters"].(map[string]interface{})
+		if !ok {
+			return nil, errInapplicable
+		}
+		done := false
+		for _, key := range []string{"Constraints", "StateMap"} {
+			if done = setFirstInt(p[key], "1000"); done {
+				break
+			}
+		}
+		if !done {
+			return nil, errInapplicable
+		}
 	case "ChildCount":
 		a, _ := root["Distributions"].([]interface{})
 		if ft.Delta < 0 {
@@ -722,4 +736,22 @@ func registry() {
 	sort.Strings(names)
 	b, _ := json.Marshal(names)
 	fmt.Println(string(b))
+}
+
+// setFirstInt replaces the first integer leaf of a nested list
+func setFirstInt(v interface{}, lit string) bool {
+	a, ok := v.([]interface{})
+	if !ok {
+		return false
+	}
+	for i, x := range a {
+		if _, isNum := x.(json.Number); isNum {
+			a[i] = json.Number(lit)
+			return true
+		}
+		if setFirstInt(x, lit) {
+			return true
+		}
+	}
+	return false
 }
